@@ -198,6 +198,9 @@ func (cf *CloudflarePublisher) PublishECH(ctx context.Context, records []Target,
 			results = append(results, result)
 			continue
 		}
+		// Remember the new value so that a target listed twice is not
+		// written twice.
+		data[zoneName{r.Zone, r.Name}] = v
 		result.Code = StatusUpdated
 		results = append(results, result)
 	}
